@@ -1391,6 +1391,9 @@ func (r *runner) refine(cond ast.Expr, branch bool, st *State) {
 			}
 			if ce := st.Cond[o]; ce != nil {
 				r.refine(ce, branch, st)
+				if r.outcomeTest(ce) {
+					r.settleOutcomes(ce, st)
+				}
 			}
 		}
 	case *ast.SelectorExpr:
@@ -1866,10 +1869,31 @@ func (r *runner) evalExpr(b *cfg.Block, e ast.Expr, st *State) {
 	case *ast.BinaryExpr:
 		r.evalExpr(b, x.X, st)
 		if x.Op == token.LAND || x.Op == token.LOR {
-			// the right operand is evaluated conditionally: its events are may-events
-			saved := cp(st.Must)
-			r.evalExpr(b, x.Y, st)
-			st.Must = saved
+			if hasCall(x.Y) && r.outcomeTest(x.X) {
+				// short circuit with effects on both sides (`failed := step1() != nil || step2() != nil`): the right
+				// operand runs exactly where the left one did not decide — after the left calls answered the other
+				// way — and the value is decided either by the left operand alone or after the right one ran
+				ran := st.copy()
+				r.refine(x.X, x.Op == token.LAND, ran)
+				skipped := st.copy()
+				r.refine(x.X, x.Op == token.LOR, skipped)
+				if ran.Must[deadTag] {
+					*st = *skipped
+				} else {
+					r.evalExpr(b, x.Y, ran)
+					if skipped.Must[deadTag] {
+						*st = *ran
+					} else {
+						ran.join(skipped)
+						*st = *ran
+					}
+				}
+			} else {
+				// the right operand is evaluated conditionally: its events are may-events
+				saved := cp(st.Must)
+				r.evalExpr(b, x.Y, st)
+				st.Must = saved
+			}
 		} else {
 			r.evalExpr(b, x.Y, st)
 		}
@@ -2771,6 +2795,66 @@ func (r *runner) mentionsObj(e ast.Expr, o types.Object) bool {
 
 // pureTest: a comparison / logical combination over plain variables, constants, nil and literals only (no call,
 // no field, no index: nothing that can change without an assignment to one of the named variables)
+// outcomeTest: e is built with && / || / ! from comparisons of a call's error result with nil (`f() != nil`): testing
+// a flag that holds it later says how those calls — already made — answered, nothing is evaluated again.
+func (r *runner) outcomeTest(e ast.Expr) bool {
+	switch x := ast.Unparen(e).(type) {
+	case *ast.BinaryExpr:
+		switch x.Op {
+		case token.LAND, token.LOR:
+			return r.outcomeTest(x.X) && r.outcomeTest(x.Y)
+		case token.EQL, token.NEQ:
+			c, ok := ast.Unparen(x.X).(*ast.CallExpr)
+			if !ok || !isNilExpr(r.info, ast.Unparen(x.Y)) {
+				return false
+			}
+			t := r.info.TypeOf(c)
+			return t != nil && t.String() == "error"
+		}
+	case *ast.UnaryExpr:
+		return x.Op == token.NOT && r.outcomeTest(x.X)
+	}
+	return false
+}
+
+// settleOutcomes: after a flag holding an outcome test was tested, the calls whose answer is now known (ok:T / fail:T
+// established) cannot have answered the other way — provided T names that one call site only.
+func (r *runner) settleOutcomes(e ast.Expr, st *State) {
+	ast.Inspect(e, func(n ast.Node) bool {
+		c, ok := n.(*ast.CallExpr)
+		if !ok {
+			return true
+		}
+		or := r.origins[c]
+		if or == nil {
+			return true
+		}
+		for _, t := range or.Tags {
+			if strings.HasPrefix(t, "-") || strings.HasPrefix(t, "#") {
+				continue
+			}
+			sites := 0
+			for _, o2 := range r.origins {
+				for _, t2 := range o2.Tags {
+					if t2 == t {
+						sites++
+					}
+				}
+			}
+			if sites != 1 {
+				continue
+			}
+			switch {
+			case st.Must["ok:"+t] && !st.Must["fail:"+t]:
+				delete(st.May, "fail:"+t)
+			case st.Must["fail:"+t] && !st.Must["ok:"+t]:
+				delete(st.May, "ok:"+t)
+			}
+		}
+		return false
+	})
+}
+
 func (r *runner) pureTest(e ast.Expr) bool {
 	switch x := ast.Unparen(e).(type) {
 	case *ast.BinaryExpr:
@@ -2890,7 +2974,7 @@ func (r *runner) bind(o types.Object, e ast.Expr, st *State) {
 			st.Cond[o] = x
 		}
 	case *ast.BinaryExpr:
-		if r.pureTest(x) && !r.mentionsObj(x, o) {
+		if (r.pureTest(x) || r.outcomeTest(x)) && !r.mentionsObj(x, o) {
 			st.Cond[o] = x
 		}
 	case *ast.CompositeLit, *ast.FuncLit:
